@@ -162,6 +162,22 @@ def c10_cases(tier):
     limit = 300 if tier == "quick" else len(out)
     step = max(1, len(out) // limit)
     out = out[::step][:limit] if tier == "quick" else out
+    # `ignores` are about change detection only: an entry one target uses and its owner (or the user
+    # itself, or a bystander) ignores - the entry itself or the directory above it - is still a dependency
+    ign = []
+    for k in (2, 3):
+        for tset in itertools.combinations(dirs, k):
+            for ti in range(k):
+                for e in entries:
+                    if not any(inside(e, p) for i, p in enumerate(tset) if i != ti):
+                        continue
+                    for ui in range(k):
+                        for g in {e, os.path.dirname(e) or e}:
+                            ts = [{"path": p} for p in tset]
+                            ts[ti]["uses"] = [e]
+                            ts[ui]["ignores"] = [g]
+                            ign.append(ts)
+    out += ign[:: (7 if tier == "quick" else 1)]
     # names whose rendering as a label is easy to get wrong: precomposed and decomposed accents, a
     # zero-width joiner, CJK, a quote-free name with a backslash-like look, siblings around '/'
     odd = ["caf\u00e9", "cafe\u0301", "z\u200dw", "\u65e5\u672c", "a-b", "a.c", "caf\u00e9/sub"]
@@ -179,9 +195,21 @@ def c10_cases(tier):
 # ------------------------------------------------------------------------------------------ C03 / C09
 
 def graph_task(args):
-    prop, n, edges, files = args
+    prop, n, edges, files = args[:4]
+    ign = args[4] if len(args) > 4 else None
     tier_all = os.environ.get("VERIF_TIER_THOROUGH") == "1"
     ts = flat_targets(n, edges, files)
+    # `ignores` play no part in the dependency relation: a target that ignores the very path it uses
+    # (it wants the ordering, not the rebuilds), or whose owner ignores the path others use
+    if ign == "self":
+        for t_ in ts:
+            if t_.get("uses"):
+                t_["ignores"] = list(t_["uses"])
+    elif ign == "owner":
+        for t_ in ts:
+            mine = sorted({u for o in ts for u in (o.get("uses") or []) if o is not t_ and inside(u, t_["path"])})
+            if mine:
+                t_["ignores"] = mine
     tm = {t["path"]: t for t in ts}
     cyc = has_cycle(tm)
     if (prop == "C03") == cyc:
@@ -238,7 +266,30 @@ def graph_task(args):
                     bad = layering_defect(tm, want, groups)
                     if bad:
                         v.append(("bad-layering-run", "%s: %s (groups %s)" % (name, bad, groups)))
-        return {"judged": judged, "v": [(sig, d, {"cli_graph": {"n": n, "edges": edges, "files": files}}) for sig, d in v]}
+        if not cyc:
+            # a command that a whole layer of the plan does not define (only some targets deploy, only
+            # some have tests): the groups `run` reports are still a layering of all requested targets
+            lay = (r.mr("analyze", "--target-groups").json() or {}).get("target_groups") or []
+            for li, layer in enumerate(lay if len(lay) > 1 else []):
+                for t in tm:
+                    f = r.path(os.path.join(t, "monorail/cmd/dep.sh"))
+                    if os.path.lexists(f):
+                        os.unlink(f)
+                    if t not in layer:
+                        r.command_file(t, "dep", "x")
+                for argv, idxs in ((["run", "-c", "dep"], [0]), (["run", "-c", "build", "dep", "build"], [0, 1, 2])):
+                    res = r.mr(*argv, env=r.trace_env())
+                    judged += 1
+                    d = res.json()
+                    if res.code != 0 or d is None or len(d.get("results") or []) != len(idxs):
+                        v.append(("acyclic-rejected-by-run", "%s with no target of layer %d defining `dep`: exit %s %s" % (" ".join(argv), li, res.code, res.err[:200])))
+                        continue
+                    for i in idxs:
+                        groups = [list(g) for g in d["results"][i]["target_groups"]]
+                        bad = layering_defect(tm, set(tm), groups)
+                        if bad:
+                            v.append(("bad-layering-run", "%s with no target of layer %d (%s) defining `dep`: command #%d: %s (groups %s)" % (" ".join(argv), li, sorted(layer), i, bad, groups)))
+        return {"judged": judged, "v": [(sig, d, {"cli_graph": {"n": n, "edges": edges, "files": files, "ign": ign}}) for sig, d in v]}
     finally:
         s.cleanup()
 
@@ -441,6 +492,12 @@ def graph_cases(prop, tier):
             out.append((prop, n, edges, False))
             if edges and (tier != "quick" or len(edges) <= 2):
                 out.append((prop, n, edges, True))
+            if edges and (tier != "quick" or len(edges) <= 3):
+                out.append((prop, n, edges, False, "self"))
+                out.append((prop, n, edges, True, "owner"))
+                if tier != "quick":
+                    out.append((prop, n, edges, True, "self"))
+                    out.append((prop, n, edges, False, "owner"))
     return out
 
 
@@ -514,6 +571,16 @@ def c01_task(ts):
                 r.global_flags = None
                 if d2 is None or d2.get("targets") != d["targets"]:
                     v.append(("cli-summary-depends-on-flags", "%s %s reports targets %s, analyze --all reports %s" % (" ".join(flags), " ".join(argv), d2 and d2.get("targets"), d["targets"])))
+            # the same paths changed once more after they were recorded as pending, the new content arriving
+            # with an old modification time (mv of an older file, cp -p, tar x): the same targets
+            if r.mr("checkpoint", "update", "-p").code == 0:
+                for c in CHANGES:
+                    r.write(c, "changed again\n")
+                    os.utime(r.path(c), (1_000_000_000, 1_000_000_000))
+                d3 = r.mr("analyze", "--all").json()
+                if d3 is None or d3.get("targets") != d["targets"] or sorted(c["path"] for c in d3.get("changes") or []) != sorted(CHANGES):
+                    v.append(("cli-pending-then-changed-again", "every changed path was recorded as pending and then changed again (old mtime): targets %s, changes %s; before: targets %s" % (
+                        d3 and d3.get("targets"), d3 and [c["path"] for c in d3.get("changes") or []], d["targets"])))
         return {"judged": 1, "v": [(sig, dd, {"cli_config": {"targets": ts}}) for sig, dd in v]}
     finally:
         s.cleanup()
